@@ -2081,9 +2081,9 @@ fn main() {
     let ctx = Ctx::new("C10", "model_checking");
     let sh = Shared { ctx: ctx.clone(), stats: Stats::new(), seen: Default::default(), sample_keys: Default::default(), samples: Default::default() };
     let b = if ctx.quick() {
-        Bounds { max_dist: 2, all_splits_upto: 8, both_qmodes: false, mid_first: 1, mid_second: 1, fault_dist: 1, fault_cuts: 2, diff_len: 2, sender_dist: 1 }
+        Bounds { max_dist: 2, all_splits_upto: 8, both_qmodes: false, mid_first: 1, mid_second: 1, fault_dist: 1, fault_cuts: 1, diff_len: 2, sender_dist: 1 }
     } else {
-        Bounds { max_dist: 3, all_splits_upto: 10, both_qmodes: true, mid_first: 1, mid_second: 2, fault_dist: 2, fault_cuts: 3, diff_len: 3, sender_dist: 2 }
+        Bounds { max_dist: 3, all_splits_upto: 10, both_qmodes: true, mid_first: 1, mid_second: 2, fault_dist: 2, fault_cuts: 2, diff_len: 3, sender_dist: 2 }
     };
     let mut npairs = 0;
     if let Some(p) = &ctx.replay {
